@@ -90,6 +90,8 @@ def mon_c15(case_line, trace):
             return '101-on-invalid: a 101 was written for an incomplete/malformed head'
         return None
     line, hs, consumed = ph
+    if outcome == 'blocked':
+        return 'head-complete-but-waiting: the complete request head (%d bytes) was delivered, yet the handshake is still waiting for more' % consumed
     k, after = head_complete_chunk(chunks)
     parts = line.split(b' ')
     method_ok = len(parts) == 3 and parts[0] == b'GET'
@@ -163,6 +165,8 @@ def mon_c17(case_line, trace):
         return 'too-many-reads: %d data reads in one handshake' % len(sizes)
     if sum(sizes) > 65536 + 4096:
         return 'too-many-bytes: %d bytes consumed by one handshake' % sum(sizes)
+    if outcome == 'blocked' and parse_head(b''.join(chunks)) not in (None,) and attack_sim(sizes) is None:
+        return 'head-complete-but-waiting: a complete head was delivered over %d reads, yet the handshake is still waiting (outcome depends on the segmentation)' % len(sizes)
     trip = attack_sim(sizes)
     if trip is not None and trip < len(sizes) - 1:
         return 'guard-not-enforced: read %d should have tripped the small-packet/size guard but %d more reads followed' % (trip, len(sizes) - 1 - trip)
@@ -233,6 +237,8 @@ def mon_c16(case_line, trace, mline):
             return 'ok-without-response: client handshake ok without a complete response head'
         return None
     rline, rhs, rcons = ph
+    if outcome == 'blocked':
+        return 'head-complete-but-waiting: the complete response head (%d bytes) was delivered, yet the client handshake is still waiting for more' % rcons
     rp = rline.split(b' ', 2)
     status_ok = len(rp) >= 2 and rp[1] == b'101' and rp[0] in (b'HTTP/1.1',)
     up = values(rhs, b'Upgrade'); co = values(rhs, b'Connection'); ac = values(rhs, b'Sec-WebSocket-Accept'); sp = values(rhs, b'Sec-WebSocket-Protocol')
